@@ -78,6 +78,21 @@ def shard(binpath, seed, sh, ncases):
         sig = {k: wires[base + 3 * i]["signatures"][0] for i, k in enumerate(pool)}
         sig2 = {k: wires[base + 3 * i + 1]["signatures"][0] for i, k in enumerate(pool)}
         sigo = {k: wires[base + 3 * i + 2]["signatures"][0] for i, k in enumerate(pool)}
+        # history: first the genuine block over the OTHER content is verified (its signatures are good and become
+        # known to the process), then this content is offered with exactly those signature entries: nothing verified
+        # earlier may stand in for a check over the content at hand
+        other = copy.deepcopy(content)
+        other["name"] += "-other"
+        osl = [{"keyid": W.kid(k), "sig": sigo[k]["sig"]} for k in pool]
+        cases.append({"op": "block", "text": json.dumps({"signatures": osl, "signed": other}), "threshold": len(pool),
+                      "auth": [W.pub(k) for k in pool],
+                      "meta": {"t": len(pool), "v": len(pool), "once": True, "why": "history_genuine_other_content", "group": -1 - ci, "perm": 0,
+                               "entries": [[k, k] for k in pool], "auth": list(pool)}})
+        for tt in (1, len(pool)):
+            cases.append({"op": "block", "text": json.dumps({"signatures": osl, "signed": content}), "threshold": tt,
+                          "auth": [W.pub(k) for k in pool],
+                          "meta": {"t": tt, "v": 0, "once": True, "why": "replayed_after_genuine_verification", "group": -1 - ci, "perm": 1 + tt,
+                                   "entries": [[k, None] for k in pool], "auth": list(pool)}})
         nauth = rng.choice([0, 1, 2, 3, 4, 6])
         auth = rng.sample(pool, nauth)
         auth_list = list(auth)
@@ -177,7 +192,7 @@ def shard(binpath, seed, sh, ncases):
                "accepted" if ok else "rejected", "once" if m["once"] else "repeated-labels"]
         cls += ["kind:" + w for w in m["why"].split("+")]
         res.note([m["entries"], m["auth"], m["t"], c["text"][:80]], nontrivial, cls=cls)
-        if ok is not None and m["once"]:
+        if ok is not None and m["once"] and m["group"] >= 0:
             groups.setdefault(m["group"], []).append((ok, c, o))
     for g, lst in groups.items():
         if len({x[0] for x in lst}) > 1:
@@ -205,6 +220,6 @@ def main(ctx):
                      "ring's primitives are correct"],
         required=["accepted", "rejected", "t=0", "t>n", "kind:dup", "kind:resign", "kind:mislabeled",
                   "kind:flipped", "kind:unauthorised", "kind:other_content", "kind:unknown_scheme_key", "kind:auth_key_declares_second_id",
-                  "kind:auth_key_declares_other_id", "once", "repeated-labels",
+                  "kind:auth_key_declares_other_id", "kind:replayed_after_genuine_verification", "kind:history_genuine_other_content", "once", "repeated-labels",
                   "accepted_with_t>=2"],
         min_evals=1000)
